@@ -70,7 +70,7 @@ func (p *packetizer) Packetize(payload []byte, samples uint32) []*Packet {
 		return nil
 	}
 
-	payloads := p.Payloader.Payload(p.MTU-12, payload)
+	payloads := p.Payloader.Payload(p.MTU-12-p.absSendTimeOverhead(), payload)
 	packets := make([]*Packet, len(payloads))
 
 	for i, pp := range payloads {
@@ -105,6 +105,19 @@ func (p *packetizer) Packetize(payload []byte, samples uint32) []*Packet {
 	}
 
 	return packets
+}
+
+// absSendTimeOverhead is the size of the header extension block that carries the
+// abs-send-time element (profile and length words plus the padded element).
+func (p *packetizer) absSendTimeOverhead() uint16 {
+	switch id := p.extensionNumbers.AbsSendTime; {
+	case id == 0:
+		return 0
+	case id >= 1 && id <= 14:
+		return 8 // one-byte header: 4 + (1 + 3)
+	default:
+		return 12 // two-byte header: 4 + (2 + 3) rounded up to 32 bits
+	}
 }
 
 // GeneratePadding returns required padding-only packages.
